@@ -152,7 +152,7 @@ fn rt_drain_filter(sh: Shape, p: (u16, usize, bool)) {
     }
     assert!(m.len() == sq.nfull_main + sq.nfull_old, "[C09] len() wrong after drain_filter");
     // C03: drain_filter removes through `remove`, which frees an emptied old table
-    post_freed_if_empty(&m);
+    post_freed_if_empty(&m, l0);
     post_inv(&m, &sq);
     assert!(m.get(&q).copied() == sq.val, "[C09] get() disagrees after drain_filter");
     kani::cover!(l0 > 0 && !is_split(&m), "cls: drain_filter emptied and freed the old table");
